@@ -12,7 +12,7 @@
 (*        items  : Seq([kind, orig, must, named, name, back, fresh]),       *)
 (*        spaces : Seq([sec, var, multi, free, items : Seq(index)]),        *)
 (*        text   : Seq([names : Seq(name)])   (aligned with spaces, or <<>>)*)
-(*        tback  : Seq([n, ok, rn])]                                        *)
+(*        tback  : Seq([s, n, ok, rn])]                                     *)
 (*       item.name  = look-up item -> name  (get_pddl_name / harvested)     *)
 (*       item.back  = index of the item returned by name -> item            *)
 (*       item.fresh = the name the same item gets on first use in a fresh   *)
@@ -70,53 +70,76 @@ KwFor(lang, feats) == IF lang = "anml" THEN KW.anml ELSE KW.general \cup Ext(fea
 KeySet(lang, K) == {Key(lang, k) : k \in K}
 
 OBJECT == <<111, 98, 106, 101, 99, 116>>
+TOTALCOST == <<116, 111, 116, 97, 108, 45, 99, 111, 115, 116>>
 
 (* ------------------------------- clauses ------------------------------- *)
+\* Failures are <<clause, index, detail>>: index of the item / section / harvested name, detail = what the
+\* driver puts in the signature (kind and a syntactic feature of the ORIGINAL name, or the section)
 NoNaming == [lang |-> "none", feats |-> {}, done |-> FALSE, hasfresh |-> FALSE, items |-> <<>>, spaces |-> <<>>,
              text |-> <<>>, tback |-> <<>>]
 
+AllKw(lang) == IF lang = "anml" THEN KW.anml
+               ELSE KW.general \cup KW.temporal \cup KW.pddl3 \cup KW.plus \cup KW.contingent
+AllKwKeys(lang) == KeySet(lang, AllKw(lang))
+OrigFeature(lang, n) ==
+   IF Len(n) = 0 THEN "empty"
+   ELSE IF \E i \in 1..Len(n) : n[i] > 127 THEN "nonascii"
+   ELSE IF \E i \in 1..Len(n) : ~IdChar(lang, n[i]) THEN "symbol"
+   ELSE IF ~IdStart(lang, n[1]) THEN "badstart"
+   ELSE IF Key(lang, n) \in AllKwKeys(lang) THEN "keyword"
+   ELSE IF n # Fold(n) THEN "uppercase"
+   ELSE "plain"
+Det(N, i) == <<N.items[i].kind, OrigFeature(N.lang, N.items[i].orig)>>
+
 IsVar(it) == it.kind \in VarKinds
 NamesOf(N, S) == {N.items[i].name : i \in {j \in S : N.items[j].named}}
+\* names the language (or the writer) reserves in a section: `object` is PDDL's predefined root type and
+\* may be used without being declared; `total-cost` is the function the writer itself declares for costs
+Builtin(N, s) == IF N.lang # "pddl" THEN {}
+                 ELSE IF N.spaces[s].sec = "types" THEN {OBJECT}
+                 ELSE IF N.spaces[s].sec = "fluents" THEN {TOTALCOST} ELSE {}
 
-Named(N) == {<<"Named", i>> : i \in {j \in DOMAIN N.items : N.done /\ N.items[j].must /\ ~N.items[j].named}}
-Valid(N) == {<<"Valid", i>> : i \in {j \in DOMAIN N.items :
+Named(N) == {<<"Named", i, Det(N, i)>> : i \in {j \in DOMAIN N.items : N.done /\ N.items[j].must /\ ~N.items[j].named}}
+Valid(N) == {<<"Valid", i, Det(N, i)>> : i \in {j \in DOMAIN N.items :
                 N.items[j].named /\ ~ValidName(N.lang, IsVar(N.items[j]), N.items[j].name)}}
-NotKeyword(K, N) == {<<"NotKeyword", i>> : i \in {j \in DOMAIN N.items :
+NotKeyword(K, N) == {<<"NotKeyword", i, Det(N, i)>> : i \in {j \in DOMAIN N.items :
                 N.items[j].named /\ Key(N.lang, N.items[j].name) \in K}}
-Distinct(N) == {<<"Distinct", j>> : j \in {b \in DOMAIN N.items :
+Distinct(N) == {<<"Distinct", j, Det(N, j)>> : j \in {b \in DOMAIN N.items :
                 \E k \in DOMAIN N.spaces : \E a \in Rng(N.spaces[k].items) :
                    /\ b \in Rng(N.spaces[k].items) /\ a < b
                    /\ N.items[a].named /\ N.items[b].named
                    /\ Key(N.lang, N.items[a].name) = Key(N.lang, N.items[b].name)}}
 \* name -> item after item -> name is the identity (only the PDDL writer has look-ups)
-InverseLk(N) == {<<"Inverse", i>> : i \in {j \in DOMAIN N.items :
+InverseLk(N) == {<<"Inverse", i, Det(N, i)>> : i \in {j \in DOMAIN N.items :
                 N.lang = "pddl" /\ N.items[j].named /\ N.items[j].back # j}}
 \* the declarations of the emitted text, harvested independently of the look-ups
-TextValid(K, N) == {<<"TextValid", k>> : k \in {s \in DOMAIN N.text :
+TextValid(K, N) == {<<"TextValid", k, <<N.spaces[k].sec>> >> : k \in {s \in DOMAIN N.text :
                 \E q \in DOMAIN N.text[s].names :
                    LET n == N.text[s].names[q] IN ~ValidName(N.lang, N.spaces[s].var, n) \/ Key(N.lang, n) \in K}}
-TextDistinct(N) == {<<"TextDistinct", k>> : k \in {s \in DOMAIN N.text :
-                /\ ~N.spaces[s].multi
-                /\ \E q \in DOMAIN N.text[s].names : \E r \in DOMAIN N.text[s].names :
-                      q < r /\ Key(N.lang, N.text[s].names[q]) = Key(N.lang, N.text[s].names[r])}}
-\* `object` is PDDL's predefined root type: it may be used without being declared
-Builtin(N, s) == IF N.lang = "pddl" /\ N.spaces[s].sec = "types" THEN {OBJECT} ELSE {}
-TextAgrees(N) == {<<"TextAgrees", k>> : k \in {s \in DOMAIN N.text :
+DupKeys(N, s) == {Key(N.lang, N.text[s].names[q]) : q \in {r \in DOMAIN N.text[s].names :
+                    \E t \in DOMAIN N.text[s].names : t < r /\ Key(N.lang, N.text[s].names[t]) = Key(N.lang, N.text[s].names[r])}}
+TextDistinct(N) == {<<"TextDistinct", k,
+                      <<N.spaces[k].sec, IF DupKeys(N, k) \subseteq KeySet(N.lang, Builtin(N, k)) THEN "reserved" ELSE "names">> >> :
+                    k \in {s \in DOMAIN N.text : ~N.spaces[s].multi /\ DupKeys(N, s) # {}}}
+TextAgrees(N) == {<<"TextAgrees", k, <<N.spaces[k].sec>> >> : k \in {s \in DOMAIN N.text :
                 /\ ~N.spaces[s].free
                 /\ LET H == Rng(N.text[s].names)
                        S == Rng(N.spaces[s].items)
                    IN ~ /\ (H \ Builtin(N, s)) \subseteq NamesOf(N, S)
                         /\ (NamesOf(N, {i \in S : N.items[i].must}) \ Builtin(N, s)) \subseteq H}}
-TextInverse(N) == {<<"TextInverse", q>> : q \in {r \in DOMAIN N.tback :
-                ~N.tback[r].ok \/ N.tback[r].rn # N.tback[r].n}}
+\* tback[r] = [s (section), n, ok, rn]
+TextInverse(N) == {<<"TextInverse", q, <<N.spaces[N.tback[q].s].sec>> >> : q \in {r \in DOMAIN N.tback :
+                /\ N.tback[r].n \notin Builtin(N, N.tback[r].s)
+                /\ (~N.tback[r].ok \/ N.tback[r].rn # N.tback[r].n)}}
 \* the names are a function of the problem: the same as on first use in a fresh process
-HistoryIndependent(N) == {<<"HistoryIndependent", i>> : i \in {j \in DOMAIN N.items :
+HistoryIndependent(N) == {<<"HistoryIndependent", i, Det(N, i)>> : i \in {j \in DOMAIN N.items :
                 N.hasfresh /\ N.items[j].named /\ N.items[j].name # N.items[j].fresh}}
 
 Failures(K, N) ==
    IF N.lang = "none" THEN {}
    ELSE Named(N) \cup Valid(N) \cup NotKeyword(K, N) \cup Distinct(N) \cup InverseLk(N) \cup TextValid(K, N)
         \cup TextDistinct(N) \cup TextAgrees(N) \cup TextInverse(N) \cup HistoryIndependent(N)
+ClausesOf(F) == {f[1] : f \in F}
 
 (* --------------------------- declarative machine ----------------------- *)
 VARIABLES kw, nm
